@@ -3,7 +3,8 @@
                                   ops:    comma list of  p<hex> (put) | b<hex> (bput) | f (flush) | P<hex> (putflush)
         -> "<ok 1|0> <hex of everything the descriptor accepted> <bytes waiting in the buffer>"   (stops at the first failing op)
      in <cap> <script> <sephex> <srchex>    script: k<n> (read returns at most n+1 bytes) | i | e | -
-        -> lines "hex:match" joined by ',' then " <ok 1|0>"      (getln until end of file or error)  */
+        -> lines "hex:match" joined by ',' then " <ok 1|0>"      (getln until end of file or error)
+     get <cap> <script> <len,len,..> <srchex>  -> "r:hex,..." for successive substdio_get calls, stopping after the first r <= 0  */
 #include "h_common.h"
 #include "substdio.h"
 #include "stralloc.h"
@@ -56,6 +57,19 @@ int main(void) {
       }
       if (first) fputc('-', h_res);
       fprintf(h_res, " %d\n", ok); free(x);
+    } else if (nt >= 5 && !strcmp(tok[0], "get")) {
+      /* get <cap> <script> <len,len,...> <srchex>: successive substdio_get calls -> "r:hex,r:hex,..." (stops after the first r <= 0) */
+      int cap = atoi(tok[1]), nl, i; substdio ss; char *x = malloc(cap + 1); static char *lens[1 << 12]; static unsigned char out[1 << 16];
+      nscr = split(tok[2], scr, 1 << 16); cur = 0; nl = split(tok[3], lens, 1 << 12); srclen = h_unhex(tok[4], src); srcpos = 0;
+      substdio_fdbuf(&ss, r_op, 0, x, cap);
+      for (i = 0; i < nl; i++) {
+        ssize_t r = substdio_get(&ss, (char *) out, atoi(lens[i]));
+        if (i) fputc(',', h_res);
+        fprintf(h_res, "%zd:", r); h_puthex(out, r > 0 ? (size_t) r : 0);
+        if (r <= 0) break;
+      }
+      if (!nl) fputc('-', h_res);
+      fputc('\n', h_res); free(x);
     } else fputs("?\n", h_res);
     fflush(h_res);
   }
